@@ -134,8 +134,13 @@ func randomTxs(rng *rand.Rand) []txop {
 			r = 90
 		}
 		switch {
-		case r < 45:
+		case r < 38:
 			t.K, t.X, t.V = "set", rng.Intn(len(dkeys)), 1+rng.Intn(2)
+		case r < 45:
+			// there and back inside one block: when the key already holds V, the same node hashes are reported both
+			// as obsolete and as new by this commit (removeDuplicatedKeys)
+			t.K, t.X, t.V = "set", rng.Intn(len(dkeys)), 1+rng.Intn(2)
+			txs = append(txs, txop{K: "set", A: t.A, X: t.X, V: 3})
 		case r < 65:
 			t.K, t.X = "del", rng.Intn(len(dkeys))
 		case r < 80:
